@@ -218,6 +218,9 @@ fn eval_str<T: Int>(c: &(Bytes, u32), obs: &mut Obs) -> Result<(), String> {
         Expect::Err(k) => ck!(format!("from_str_radix({:?}, {})", s, radix), got.clone(), Err::<Pat, Kind>(*k)),
         Expect::AnyErr => ck!(format!("from_str_radix({:?}, {}) must be an error", s, radix), got.is_err(), true),
     }
+    // sibling entry point: num_traits::Num::from_str_radix (anchored by C18) is the same function
+    let nt = outcome(|| T::nt_from_str_radix(s, radix).map(|v| st(&v)).map_err(|e| kind_of(&e)));
+    ck!("num_traits::Num::from_str_radix == from_str_radix", nt, Outcome::Returned(got.clone()));
     // parse_bytes = .ok() of that
     let pb = outcome(|| T::parse_bytes(bytes, radix).map(|v| st(&v)));
     ck!("parse_bytes == from_str_radix(..).ok()", pb, Outcome::Returned(got.clone().ok()));
@@ -388,7 +391,7 @@ fn main() {
     runner::main(
         Property {
             id: "C10",
-            rule: "Grammar-based strings `sign? zeros{0..k} digits` for every radix 2..=36 in every run (cycled deterministically): digits come from the reference conversion of {0, 1, small, unsigned MAX, signed MAX, |MIN|, 2^W, 2^(W+1) (+-2), r^j +- 1, structured patterns} or are random digit strings of length capacity(r) + {-2..2}, or prefix-structured strings numeral(P) ++ m whole chunks (P a structured binary pattern, so the parser's running value has zero / extreme binary digits at a chunk boundary), optionally preceded by whole chunks of zeros; k up to 2*capacity + 2 redundant leading zeros; lower/upper/mixed case letters; invalid strings = one foreign byte (space, tab, newline, NUL, '_', '.', '+', '-', '/', ':', '@', '[', '`', '{', a digit >= radix, multi-byte UTF-8 incl. a non-ASCII decimal digit) inserted at start / after the sign / middle / end of an otherwise valid string (half of them truncated to 1..5 digits so that the InvalidDigit requirement applies); empty string, lone signs, double signs; byte strings that are not UTF-8 for parse_bytes, for every radix (a byte >= 0x80 inserted or substituted anywhere, in particular the high-bit twin c|0x80 of a valid digit character, also in strings of 1-3 digits); out-of-range radices {0, 1, 37, 38, 255, 256, 257, u32::MAX}. Digit slices for from_radix_be/le: every radix 2..=256 in every run, built the same way, with excess most-significant zero digits, one digit >= radix injected, empty slice. Oracle: parse_model returns the SET of acceptable outcomes (exact Ok(v); exact PosOverflow/NegOverflow/Empty; InvalidDigit for a lone sign or a foreign byte in a body of L bytes with r^L <= 2^(W-1); any Err for a foreign byte in a longer string); parse_bytes = .ok(); FromStr = radix 10; parse_str_radix on valid input; from_radix_*: Some(v) iff all digits < radix and v < 2^W. The model is compared with the primitives' from_str_radix on a fixed corpus at start-up. NON-TRIVIAL: body length >= capacity - 1, or redundant leading zeros, or a foreign byte present, or value within 6 bits of a bound / unrepresentable. distinct = distinct (profile, job, inputs) by 64-bit hash.",
+            rule: "Grammar-based strings `sign? zeros{0..k} digits` for every radix 2..=36 in every run (cycled deterministically): digits come from the reference conversion of {0, 1, small, unsigned MAX, signed MAX, |MIN|, 2^W, 2^(W+1) (+-2), r^j +- 1, structured patterns} or are random digit strings of length capacity(r) + {-2..2}, or prefix-structured strings numeral(P) ++ m whole chunks (P a structured binary pattern, so the parser's running value has zero / extreme binary digits at a chunk boundary), optionally preceded by whole chunks of zeros; k up to 2*capacity + 2 redundant leading zeros; lower/upper/mixed case letters; invalid strings = one foreign byte (space, tab, newline, NUL, '_', '.', '+', '-', '/', ':', '@', '[', '`', '{', a digit >= radix, multi-byte UTF-8 incl. a non-ASCII decimal digit) inserted at start / after the sign / middle / end of an otherwise valid string (half of them truncated to 1..5 digits so that the InvalidDigit requirement applies); empty string, lone signs, double signs; byte strings that are not UTF-8 for parse_bytes, for every radix (a byte >= 0x80 inserted or substituted anywhere, in particular the high-bit twin c|0x80 of a valid digit character, also in strings of 1-3 digits); out-of-range radices {0, 1, 37, 38, 255, 256, 257, u32::MAX}. Digit slices for from_radix_be/le: every radix 2..=256 in every run, built the same way, with excess most-significant zero digits, one digit >= radix injected, empty slice. Oracle: parse_model returns the SET of acceptable outcomes (exact Ok(v); exact PosOverflow/NegOverflow/Empty; InvalidDigit for a lone sign or a foreign byte in a body of L bytes with r^L <= 2^(W-1); any Err for a foreign byte in a longer string); parse_bytes = .ok(); FromStr = radix 10; parse_str_radix on valid input; from_radix_*: Some(v) iff all digits < radix and v < 2^W. The model is compared with the primitives' from_str_radix on a fixed corpus at start-up. NON-TRIVIAL: body length >= capacity - 1, or redundant leading zeros, or a foreign byte present, or value within 6 bits of a bound / unrepresentable. distinct = distinct (profile, job, inputs) by 64-bit hash. num_traits::Num::from_str_radix is compared with the inherent function on every string (sibling entry point).",
             assumptions: &[
                 "digits()/from_digits()/to_bits()/from_bits() are the trusted observation channel",
                 "the error kind for LONG invalid strings is outside the property; parse_str_radix on invalid input is documented to panic and not called",
